@@ -6,3 +6,4 @@ import Mux.Ties.C06
 import Mux.Ties.C07
 import Mux.Ties.C09
 import Mux.Ties.C16
+import Mux.Ties.C17
